@@ -573,17 +573,72 @@ def get_branches():
 def build_cases(tier, seed):
     B = get_branches()
     cases = [{'kind': 'heavy' if b[4] else 'branch', 'index': i, 'name': b[0], 'branch': b[1]} for i, b in enumerate(B)]
+    for size in ((1,), (2,), (3,), (2, 2)):
+        for nz in (False, True):
+            for no_ in (False, True):
+                cases.append({'kind': 'f2stub', 'size': list(size), 'not_zero': nz, 'not_one': no_})
     hl = 2
     info = {'branches': len(B), 'functions': len({b[0] for b in B}), 'seeds': SEEDS if tier == 'quick' else SEEDS + [2, 3, 12345, 2**31 - 1],
             'events': EVENTS, 'history_length': hl, 'histories_per_branch_seed': len(histories(hl)),
             'heavy_history_length': 1, 'exhaustive': True,
+            'f2stub': 'rand_F2 under a stub generator: every sequence of <= 3 draws over all 2^n bit patterns (n <= 4), all four flag combinations',
             'note': 'every (branch, seed, history) of the stated menu is executed; heavy APIs (optimiser, LP solver) use histories of length <= 1 and one seed'}
     return cases, info
+
+
+def run_f2stub(case, out, env):
+    """environment answers: the generator's integers() returns every bit pattern in turn, for every sequence of <= 3 draws.
+    rand_F2 must return the first drawn pattern that the flags admit (rejection sampling) and never an excluded one."""
+    import numqi
+    size = tuple(case['size'])
+    n = int(np.prod(size))
+    nz, no_ = case['not_zero'], case['not_one']
+    pats = [np.array(b, dtype=np.uint8).reshape(size) for b in itertools.product([0, 1], repeat=n)]
+
+    def admissible(x):
+        return not (nz and not x.any()) and not (no_ and x.all())
+    if nz and no_ and n <= 1:
+        out.count('rejected_by_precondition')
+        out.state()
+        out.trans()
+        return
+    for L in (1, 2, 3):
+        for seq in itertools.product(range(len(pats)), repeat=L):
+            answers = [pats[i] for i in seq]
+            first = next((a for a in answers if admissible(a)), None)
+            # only sequences in which exactly the last draw is the first admissible one are distinct behaviours
+            if first is None or not admissible(answers[-1]) or any(admissible(a) for a in answers[:-1]):
+                continue
+            g = seams.StubGenerator([a.copy() for a in answers])
+            out.state()
+            out.trans()
+            try:
+                r = numqi.random.rand_F2(*size, not_zero=nz, not_one=no_, seed=g)
+            except seams.StubExhausted:
+                out.violation('rand_F2/stub/rejects_admissible_draw', 'rand_F2(size=%s, not_zero=%s, not_one=%s) kept drawing after an admissible pattern %s' % (size, nz, no_, first.tolist()), answers=[a.tolist() for a in answers])
+                continue
+            bad = []
+            if r.shape != size or r.dtype != np.uint8:
+                bad.append('shape/dtype')
+            elif nz and not r.any():
+                bad.append('all zero despite not_zero')
+            elif no_ and r.all():
+                bad.append('all one despite not_one')
+            elif not np.array_equal(r, first):
+                bad.append('returned %s, first admissible draw was %s' % (r.tolist(), first.tolist()))
+            if bad:
+                out.violation('rand_F2/stub/invalid_object', 'rand_F2(size=%s, not_zero=%s, not_one=%s) with generator answers %s: %s' % (size, nz, no_, [a.reshape(-1).tolist() for a in answers], '; '.join(bad)),
+                              answers=[a.tolist() for a in answers])
+            out.outcome((size, nz, no_, r.tobytes(), L), nontrivial=L > 1)
+            out.trace()
+    out.sample = {'kind': 'f2stub', 'size': list(size), 'not_zero': nz, 'not_one': no_, 'patterns': len(pats)}
 
 
 def run_case(case, out, env):
     import numqi
     import torch
+    if case['kind'] == 'f2stub':
+        return run_f2stub(case, out, env)
     name, label, fn, valid, heavy = get_branches()[case['index']]
     seeds = SEEDS if env.tier == 'quick' else SEEDS + [2, 3, 12345, 2**31 - 1]
     hs = histories(2)
